@@ -15,7 +15,8 @@ PY = "/venv/bin/python"
 IMPL = os.path.join(HERE, "impl.py")
 NPROC = int(os.environ.get("VERIF_JOBS", "16"))
 
-MODEL_ONLY_FIELDS = re.compile(r" (spec|kd|total|det)=\S+")
+MODEL_ONLY_FIELDS = re.compile(r" (spec|kd|total|det|order|tree)=\S+")
+HOOK_SERIALS = re.compile(r"#[0-9?]+\+?")
 MODEL_ONLY_CMDS = ("(sem ", "(seqsem ")
 
 
@@ -64,8 +65,18 @@ def run_side(side: str, programs: list[str], jobs: int = NPROC) -> list[list[str
     return merged
 
 
-def normalise(line: str) -> str:
-    return MODEL_ONLY_FIELDS.sub("", line)
+def normalise(line: str, order_any: bool = False) -> str:
+    line = MODEL_ONLY_FIELDS.sub("", line)
+    line = re.sub(r"SQLError:\w+", "SQLError", line)
+    if " || hooks=" in line:
+        head, hooks = line.split(" || hooks=", 1)
+        line = head + " || hooks=" + HOOK_SERIALS.sub("#", hooks)
+    if order_any:
+        m = re.search(r"rows=(\[[^ ]*\])", line)
+        if m and m.group(1) != "[]":
+            rows = sorted(m.group(1)[1:-1].split(";"))
+            line = line[:m.start(1)] + "[" + ";".join(rows) + "]" + line[m.end(1):]
+    return line
 
 
 def field(line: str, name: str) -> str | None:
@@ -98,7 +109,10 @@ def correspondence(programs: list[str], impl: list[list[str]], model: list[list[
                 continue
             if cmd.startswith("(sqlexec "):
                 continue  # compared by the SQL oracle (multiset / order aware)
-            if normalise(il[k]) != normalise(ml[k]):
+            if ml[k].startswith(("err Unspecified", "unspecified")):
+                break  # outside the model: the two sides may legitimately diverge from here on
+            any_order = " order=any" in ml[k]
+            if normalise(il[k], any_order) != normalise(ml[k], any_order):
                 out.append(Disagreement(i, k, cmd, il[k], ml[k]))
                 break  # later lines of the same program depend on this one
     return out
